@@ -15,6 +15,17 @@ def decode(p):
                     "source": bytes.fromhex(f[1]).decode("utf8", "replace")}
         except Exception:
             return p
+    if f[0] == "OUT":
+        try:
+            return {"kind": "OUT (output step of one expression against an independent evaluation)",
+                    "expression": bytes.fromhex(f[1]).decode("utf8", "replace") if f[1] != "-" else ""}
+        except Exception:
+            return p
+    if f[0] == "CTX":
+        try:
+            return {"kind": "CTX (literal inside a function / loop body)", "program": bytes.fromhex(f[1]).decode("utf8", "replace")}
+        except Exception:
+            return p
     if f[0] in ("REC", "PAR"):
         try:
             return {"kind": f[0] + " (one literal node evaluated re-entrantly / by several goroutines)", "k": int(f[1]),
@@ -29,7 +40,7 @@ def decode(p):
 
 
 SPEC = dict(
-    lean_modules=["Ecal.Props.C14", "Ecal.Props.C14Impl", "Ecal.Props.C14Lex"],
+    lean_modules=["Ecal.Props.C14", "Ecal.Props.C14Impl", "Ecal.Props.C14Node", "Ecal.Props.C14Lex"],
     shards=8,
     rule=("cases = one-literal programs: every sequence of <=3 (quick) / <=4 (thorough) atoms from "
           "{'{{','}}','{','}','\\\"',\"'\",'\\n',a..f (variables holding marker-laden text, one self-reproducing), "
@@ -50,7 +61,10 @@ SPEC = dict(
         "lexer stage: the interpolation model starts from the token value; the token value itself is compared with the lexer model "
         "(lean/Ecal/Model/Lexer.lean) by the LEX cases",
     ],
-    assumptions=["'written in the literal' is read as: present in the token value, i.e. after the lexer has interpreted the escape "
+    assumptions=["a raw newline inside a quoted literal is a lexer error (pinned by lexer_test.go): literals with line ends are written with \\n or raw",
+                 "that the expressions of ONE literal share one child scope (a variable first defined by one expression visible to the next, "
+                 "and to the next evaluation of the same literal) is neither demanded nor forbidden: not compared",
+                 "'written in the literal' is read as: present in the token value, i.e. after the lexer has interpreted the escape "
                  "sequences (a marker built from \\u007b IS a marker; corpus + atoms cover it)",
                  "the error of baseRuntime.Eval (debugger hook) that is returned together with the string is not modelled",
                  "in the general cases the table of replacement texts is computed per expression evaluated ALONE; expressions that "
@@ -68,8 +82,14 @@ META = dict(
                 "(impl_calls_own_expressions_once_in_order); the segmentation is pinned by three unfolding laws that interp alone satisfies "
                 "(interp_pair, interp_unclosed, interp_no_open, interp_unique, literal_cases); substituted text is never scanned "
                 "(substitution_not_rescanned); witnesses for rescan, slice panic and divergence on the loop as it was before the repair. "
-                "Lexer clauses (Props/C14Lex.lean): a raw literal's value is its body byte for byte, a quoted one's is the unquoted body. "
-                "Tested, not proved: that rt_value.go is this loop (differential run, exhaustive for short literals, size-scaled to 300 "
+                "The string node (Props/C14Node.lean, evalNode = what the driver runs): a raw node is returned untouched; a failing "
+                "expression is replaced in its own place by the marker + the message of ITS error, a succeeding one by its text verbatim; "
+                "with the lexer in front (C14Lex, lifted to whole sources): a raw literal anywhere in a source evaluates to its body, a quoted "
+                "one to the interpolation of its UNESCAPED value (escapes first). "
+                "Tested, not proved: the OUTPUT STEP of one expression (value of every kind and size -> fmt.Sprint text; failure at the parser, "
+                "Validate, Eval, control-signal, raise, import stage -> marker + that error: kind OUT against an evaluation that does not go "
+                "through rt_value.go), the scope the expressions see (kind CTX: literal inside a function / loop body; not inside sinks), that the "
+                "unquote model is strconv.Unquote (LEX cases), that rt_value.go is this loop (differential run, exhaustive for short literals, size-scaled to 300 "
                 "expressions / 8 KB, stateful, re-entrant and concurrent evaluation of one node); the inline error marker; that the lexer "
                 "dispatches to the literal scanner (LEX cases)."),
     level_note=("Trusted: Lean kernel + propext/Classical.choice/Quot.sound; the correspondence harness; the per-expression "
